@@ -1107,11 +1107,15 @@ static int KSI_HighAvailabilityService_run(KSI_HighAvailabilityService *has,
 		goto cleanup;
 	}
 
-	if (handle != NULL && KSI_AsyncHandleList_length(has->respQueue) > 0) {
-		res = KSI_AsyncHandleList_remove(has->respQueue, 0, handle);
-		if (res != KSI_OK) {
-			KSI_pushError(has->ctx, res, NULL);
-			goto cleanup;
+	if (handle != NULL) {
+		/* The returned handle is NULL if there is no response in the queue. */
+		*handle = NULL;
+		if (KSI_AsyncHandleList_length(has->respQueue) > 0) {
+			res = KSI_AsyncHandleList_remove(has->respQueue, 0, handle);
+			if (res != KSI_OK) {
+				KSI_pushError(has->ctx, res, NULL);
+				goto cleanup;
+			}
 		}
 	}
 	if (waiting != NULL) {
